@@ -41,6 +41,17 @@ RC = ['a@x', 'b@x', 'c@y']
 
 
 def cells(tier):
+    """the thorough tier is the deeper cells plus every cell of the quick
+    tier (special situations are written once, for the quick tier)"""
+    out = _cells(tier)
+    if tier != 'quick':
+        for c in _cells('quick'):
+            if c not in out:
+                out.append(c)
+    return out
+
+
+def _cells(tier):
     out = []
     for op0 in range(len(OPS)):
         if tier == 'quick':
